@@ -63,6 +63,7 @@ pub fn step(wide: bool) -> BoxedStrategy<Step> {
             1 => (0u16..6, any::<bool>()).prop_map(|(k, b)| Step::PanicSearch(k, b)),
             1 => Just(Step::RFindMid),
             1 => Just(Step::RFold),
+            2 => (0u8..8).prop_map(Step::Via),
             1 => Just(Step::RevLast),
             1 => prop_oneof![4 => 0u16..4, 1 => 28u16..70].prop_map(Step::Skip),
             1 => prop_oneof![4 => 0u16..3, 1 => 28u16..70].prop_map(Step::StepBy),
